@@ -260,7 +260,7 @@ class BaseArray(BaseType):
             try:
                 num = max(0, cls.num_entries.evaluate(context))
             except Exception:
-                if cls.num_entries.expression != "EOF":
+                if cls.num_entries.expression.strip() != "EOF":
                     raise
                 num = EOF
 
